@@ -358,7 +358,7 @@ func run(h hist) result {
 			case strings.Contains(resp, "already voted"):
 				var rem int
 				fmt.Sscanf(resp, "success %d:", &rem)
-				res.outs = append(res.outs, fmt.Sprintf("(MsAlreadyVoted %d)", rem))
+				res.outs = append(res.outs, fmt.Sprintf("(MsAlreadyVoted %s)", vh.Z(int64(rem))))
 				res.kinds["repeat-vote"]++
 				if l == nil || !l.voters[signerTok] {
 					res.fail("reported-repeat-but-first-vote")
@@ -368,7 +368,7 @@ func run(h hist) result {
 			default:
 				var rem int
 				fmt.Sscanf(resp, "success %d:", &rem)
-				res.outs = append(res.outs, fmt.Sprintf("(MsNeed %d)", rem))
+				res.outs = append(res.outs, fmt.Sprintf("(MsNeed %s)", vh.Z(int64(rem))))
 				res.kinds["vote-counted"]++
 				if !countable {
 					res.fail("vote-counted-that-must-not-count")
